@@ -581,7 +581,14 @@ impl RoomAuthorisations {
             }
             _ => {
                 if to_insert.node.is_none() {
-                    //this is a reference, not mutation occurs
+                    //this row is only referenced, it is not mutated: the rows nested under it can be and are validated
+                    for entry in &mut entity_to_mutate.sub_nodes {
+                        for insert_entity in entry.1 {
+                            let mut room_ent =
+                                self.validate_entity_mutation(insert_entity, verifying_key)?;
+                            rooms.append(&mut room_ent);
+                        }
+                    }
                     return Ok(rooms);
                 } else {
                     let node = to_insert.node.as_ref().unwrap();
